@@ -74,6 +74,28 @@ def many_stores(tier):
     return specs
 
 
+def full_mode_sessions(tier, seed):
+    """Sessions for the real binary without --minimal: the program changes its own image (or `move` / `eval` do), the inspection
+    commands that DRAW something in full mode look at it (`assembly` with its source excerpt and its 'modified' note, `print`,
+    `registers`, `break list`), then `reset` and a complete run - which must print what a fresh run prints."""
+    rnd = random.Random(seed + 31)
+    out = []
+    progs = [dbggen.p_selfmod, dbggen.p_selfmod_halt, dbggen.p_swap, dbggen.p_countdown, dbggen.p_nested_jsr, dbggen.p_breaks]
+    looks = ["assembly", "assembly ^0", "assembly ^1", "assembly ^-1", "print ^0", "registers", "break list", "assembly x3001", "assembly x3004", "print r0"]
+    for p in progs:
+        src, feat = p(random.Random(5))
+        for k in range(0, 9):
+            for look in (["assembly"], ["assembly", "assembly ^2"], [rnd.choice(looks), rnd.choice(looks)]):
+                pre = ["step into %d" % k] if k else []
+                out.append((feat, src, "\n".join(pre + look + ["reset", "continue", "quit"]) + "\n"))
+        for _ in range(6 if tier == "quick" else 60):
+            cmds = []
+            for _ in range(rnd.randrange(2, 7)):
+                cmds.append(rnd.choice(looks + ["step", "step into 2", "move x3002 x1021", "move r1 5", "eval add r1 r1 #1", "eval st r1 #-2", "goto x3001", "reset", "continue"]))
+            out.append((feat, src, "\n".join(cmds + ["reset"] + [rnd.choice(looks)] + ["continue", "quit"]) + "\n"))
+    return out
+
+
 def correspondence(ctx, violations, known_hits):
     rnd, specs, fresh = gen(ctx.tier, ctx.seed)
     cases, tags = dbgcommon.make_cases(rnd, specs)
@@ -100,12 +122,14 @@ def correspondence(ctx, violations, known_hits):
                                    "after_reset": ri[a][0], "fresh": ri[b][0]})
     real = dbgcommon.cli_cross(ctx, specs, violations, limit=(30 if ctx.tier == "quick" else 600))
     r["evaluations"] += real.get("sessions", 0)
+    real["full_output_mode"] = dbgcommon.cli_full_vs_minimal(ctx, full_mode_sessions(ctx.tier, ctx.seed), violations)
+    r["evaluations"] += real["full_output_mode"]["sessions"]
     ctx.cleanup()
     return dbgcommon.coverage(r,
         "random histories of executing and mutating commands (move to registers/memory incl. the program's own code, below the origin, "
         "the stack area; goto; eval; step/continue; earlier resets) followed by reset, ended by (a) `registers; exit` — full machine "
         "snapshot incl. all 65,536 words, (b) `quit` — a complete run after the reset, compared with a fresh run of the same program, "
-        "(c) mutate-reset-reset-exit; and programs that store exactly 256 / 65,535 / 65,536 / 131,072 (thorough: also 255, 257, 65,537) times before the reset", profiles, fresh_run_comparisons=direct, fresh_run_mismatches=bad, real_binary_without_hooks=real)
+        "(c) mutate-reset-reset-exit; the real binary without --minimal against itself with it on sessions where `assembly` / `print` / `registers` / `break list` look at a changed image before the reset; and programs that store exactly 256 / 65,535 / 65,536 / 131,072 (thorough: also 255, 257, 65,537) times before the reset", profiles, fresh_run_comparisons=direct, fresh_run_mismatches=bad, real_binary_without_hooks=real)
 
 
 def replay(ctx, payload):
